@@ -259,6 +259,87 @@ def closed_form_pieces(ck, runner, cfgs, rng):
         if f.startswith(("m", "s")) and f.endswith((".geom", ".cond", ".tri")): os.remove(os.path.join(wd, f))
     return n, worst
 
+def multipoint_sensors(ck, runner, cfgs, rng):
+    """MEG sensors with several integration points (labelled 7-column file: name x y z ox oy oz weight, one line per point).
+    The gain must have one row per distinct label (in order of first appearance) and each row must be the weighted sum of the
+    single-point gains of its points (exact: 1e-9 of sum |w||g|), whatever the order of the lines: grouped sensor by sensor,
+    interleaved (all first points, then all second points, ... - the natural export of a gradiometer array) or shuffled.
+    The oracle's weighted sum of Sarvas fields per label is the analytic reference (RDM recorded; the single-point gains are
+    compared with Sarvas by the bound table)."""
+    wd = ck.workdir; worst = 0.0; ncmp = 0; rdms = []
+    for c in cfgs:
+        R = c["radii"][-1]; pts = []          # (label, pos, ori, weight)
+        nsens = 8
+        for k in range(nsens):
+            d = unit(rng); p = S.scal(R * rng.uniform(1.05, 1.3), d); kind = k % 4
+            o = d if kind != 1 else perp(rng, d)
+            o = S.scal(rng.choice([1.0, 2.5, S.norm(p)]), o)
+            b = R * rng.uniform(0.05, 0.15)
+            if kind == 0:      # axial gradiometer: two coils along the axis, weights +1 / -1
+                grp = [(p, 1.0), (S.add(p, S.scal(b, d)), -1.0)]
+            elif kind == 1:    # planar gradiometer: two coils side by side
+                t = perp(rng, d); grp = [(S.add(p, S.scal(b / 2, t)), 1.0 / b), (S.sub(p, S.scal(b / 2, t)), -1.0 / b)]
+            elif kind == 2:    # one coil, four integration points
+                t = perp(rng, d); u = S.cross(d, t); grp = [(S.add(p, S.add(S.scal(sx * b / 3, t), S.scal(sy * b / 3, u))), 0.25) for sx in (-1, 1) for sy in (-1, 1)]
+            else:              # second-order axial gradiometer: three coils 1, -2, 1
+                grp = [(p, 1.0), (S.add(p, S.scal(b, d)), -2.0), (S.add(p, S.scal(2 * b, d)), 1.0)]
+            for (pp, w) in grp: pts.append((k + 1, list(pp), list(o), w))
+        # single-point pipeline gain and oracle for all the points
+        c1 = copy.deepcopy(c); c1["meg"] = [dict(pos=p_, ori=o_) for (_, p_, o_, _) in pts]
+        (gs, ms, st), = runner.run([(c1, 1, None, False)])
+        nd = len(c["dipoles"])
+        if gs is None:
+            ck.violation("pipeline failure (multi-point sensors)", "single-point run failed (%s) on %s" % (st, describe(c, 1)), dict(kind="sphere-config", config=c1, level=1)); continue
+        grouped = sorted(range(len(pts)), key=lambda i: pts[i][0])
+        byrank = {}; 
+        for i in grouped: byrank.setdefault(pts[i][0], []).append(i)
+        inter = [g[r_] for r_ in range(4) for g in byrank.values() if r_ < len(g)]
+        shuf = list(range(len(pts))); rng.shuffle(shuf)
+        for oname, order in (("grouped", grouped), ("interleaved", inter), ("shuffled", shuf)):
+            runner.n += 1; mid = runner.n; write_geometry(c, 1, wd, mid)
+            ce = c["centre"]
+            lines = ["G%d %s %s %s" % (pts[i][0], " ".join(repr(float(x)) for x in shift(pts[i][1], ce)), " ".join(repr(float(x)) for x in pts[i][2]), repr(float(pts[i][3]))) for i in order]
+            open(os.path.join(wd, "q%d.squids" % mid), "w").write("\n".join(lines) + "\n")
+            fl = []
+            for d in c["dipoles"]: fl += shift(d["pos"], ce) + d["mom"]
+            case = core.fcase("c01m", [mid, nd, mid], fl)
+            rc, io, err = core.run_harness(runner.hb, [case], wd, env={"OMP_NUM_THREADS": os.environ.get("C01_THREADS", "2")}, tag="multi")
+            try: iz, fo = core.fparse(io[0])
+            except (ValueError, IndexError): iz, fo = None, None
+            labels = []; 
+            for i in order:
+                if pts[i][0] not in labels: labels.append(pts[i][0])
+            rp = dict(kind="multipoint", config=c, level=1, order=oname, sensors_file=lines, labels_expected=labels,
+                      points=[dict(label=pts[i][0], pos=pts[i][1], ori=pts[i][2], weight=pts[i][3]) for i in order])
+            runner.evals += 1
+            if iz is None or iz[0] != 0:
+                ck.violation("pipeline failure (multi-point sensors, %s order)" % oname, "GainMEG with a labelled 7-column sensors file failed (%s); %s" % ((io or ["?"])[0][:60], describe(c, 1)), rp); continue
+            nsn, npos, nrows, ncols, mask = iz[1:6]; got = iz[6:]
+            exp = {lb: [sum(pts[i][3] * gs[i * nd + j] for i in byrank[lb]) for j in range(nd)] for lb in labels}
+            sca = {lb: [sum(abs(pts[i][3] * gs[i * nd + j]) for i in byrank[lb]) for j in range(nd)] for lb in labels}
+            ana = {lb: [sum(pts[i][3] * ms[i * nd + j] for i in byrank[lb]) for j in range(nd)] for lb in labels}
+            msgs = []
+            if nsn != len(labels) or nrows != len(labels) or got != labels:
+                msgs.append("the gain has %d rows for %d sensors reported by Sensors (names %s); the file has %d distinct labels in the order %s" % (nrows, nsn, got, len(labels), labels))
+            elif mask: msgs.append("Gain operands modified: %s" % mask_names(mask))
+            else:
+                for r_, lb in enumerate(labels):
+                    for j in range(nd):
+                        x = fo[r_ * nd + j]; ncmp += 1
+                        e_ = abs(x - exp[lb][j]) / (sca[lb][j] or 1e-300); worst = max(worst, e_ if e_ == e_ else float("inf"))
+                        if not (e_ <= 1e-9):
+                            msgs.append("row of sensor G%d, dipole %d: gain %r, weighted sum of the single-point gains of its %d points %r" % (lb, j, x, len(byrank[lb]), exp[lb][j])); break
+                    if msgs: break
+                g_ = [fo[r_ * nd + j] for r_ in range(len(labels)) for j in range(nd)]; a_ = [ana[lb][j] for lb in labels for j in range(nd)]
+                rdms.append(round(rdm_mag(g_, a_)[0], 4))
+            if msgs:
+                ck.violation("multi-point MEG sensors, %s line order: gain is not the weighted sum per label" % oname,
+                             "sensors file with %d integration points for %d labelled sensors (axial / planar / second-order gradiometers, 4-point coils), lines in %s order: %s; analytic reference = weighted sum of the Sarvas field over the points of each label; %s"
+                             % (len(pts), len(labels), oname, msgs[0], describe(c, 1)), rp)
+    for f in os.listdir(wd):
+        if f.startswith(("m", "s", "q")) and f.endswith((".geom", ".cond", ".tri", ".squids")): os.remove(os.path.join(wd, f))
+    return ncmp, worst, rdms
+
 # ------------------------------------------------------------------ bounds
 def load_calib():
     return json.load(open(CALIB)) if os.path.exists(CALIB) else None
@@ -456,6 +537,29 @@ def main_(replay=None, calibrate=False):
                     ck.violation(rp.get("signature", "replay"), "replayed configuration still fails: %s = %.4g > %.4g (dipole %d); %s" % (mname, v, b, j, describe(cfg, level)), rp)
         if rp.get("kind") == "sphere-batch":
             run_batch_replay(ck, cal, runner, rp)
+        if rp.get("kind") == "multipoint":
+            c = rp["config"]; nd = len(c["dipoles"]); P = rp["points"]; ce = c["centre"]
+            c1 = copy.deepcopy(c); c1["meg"] = [dict(pos=p_["pos"], ori=p_["ori"]) for p_ in P]
+            (gs, ms, st), = runner.run([(c1, 1, None, False)])
+            runner.n += 1; mid = runner.n; write_geometry(c, 1, ck.workdir, mid)
+            open(os.path.join(ck.workdir, "q%d.squids" % mid), "w").write("\n".join(rp["sensors_file"]) + "\n")
+            fl = []
+            for d in c["dipoles"]: fl += shift(d["pos"], ce) + d["mom"]
+            rc_, io_, _ = core.run_harness(hb, [core.fcase("c01m", [mid, nd, mid], fl)], ck.workdir, tag="multi")
+            try: iz, fo = core.fparse(io_[0])
+            except (ValueError, IndexError): iz, fo = None, None
+            labels = rp["labels_expected"]; msgs = []
+            if iz is None or iz[0] != 0 or gs is None: msgs.append("pipeline failure")
+            elif iz[3] != len(labels) or iz[6:] != labels: msgs.append("%d rows, names %s; expected %d rows for labels %s" % (iz[3], iz[6:], len(labels), labels))
+            else:
+                for r_, lb in enumerate(labels):
+                    for j in range(nd):
+                        idx = [i for i, p_ in enumerate(P) if p_["label"] == lb]
+                        e = sum(P[i]["weight"] * gs[i * nd + j] for i in idx); sc = sum(abs(P[i]["weight"] * gs[i * nd + j]) for i in idx) or 1e-300
+                        if not (abs(fo[r_ * nd + j] - e) / sc <= 1e-9): msgs.append("sensor G%d dipole %d: %r vs weighted sum %r" % (lb, j, fo[r_ * nd + j], e)); break
+                    if msgs: break
+            ck.log("multipoint replay:", msgs or "passes")
+            if msgs: ck.violation(rp.get("signature", "replay"), "replayed multi-point sensors file (%s order) still fails: %s" % (rp["order"], msgs[0]), rp)
         if rp.get("kind") == "relation":
             c = rp["config"]; rel = rp["relation"]; msgs = []
             nd = len(c["dipoles"]); off = len(electrodes(c, 1)) * nd
@@ -704,6 +808,7 @@ def main_(replay=None, calibrate=False):
                          dict(kind="relation", relation="sigma-independent", config=c, level=1, sigmas2=s2, gain=a, gain2=d))
 
     ncf, wcf = (0, 0.0) if calibrate else closed_form_pieces(ck, runner, cfgs[:20 if quick else 100], rng)
+    nmp, wmp, rmp = (0, 0.0, []) if calibrate else multipoint_sensors(ck, runner, cfgs[1:4] if quick else cfgs[1:13], rng)
 
     if calibrate:
         table, fb = build_table(obs)
@@ -725,7 +830,8 @@ def main_(replay=None, calibrate=False):
         import shutil; shutil.rmtree(ck.workdir, ignore_errors=True)
         return 0
 
-    ck.cov.update(closed_form_piece_values_compared=ncf, closed_form_piece_worst_error_over_scale=wcf,
+    ck.cov.update(multipoint_sensor_values_compared=nmp, multipoint_worst_error_over_scale=wmp, multipoint_rdm_vs_weighted_sarvas=rmp[:12],
+                  closed_form_piece_values_compared=ncf, closed_form_piece_worst_error_over_scale=wcf,
                   evaluations=runner.evals + oracle_checks, distinct_nontrivial=nontriv,
                   rule="one evaluation = one full pipeline run (HeadMat, invert, DipSourceMat, Head2EEG/MEG, gains) on a generated nested-sphere model compared with the extracted oracle; distinct non-trivial = (configuration, resolution, dipole) triples with at least one metric evaluated; random 1-4 layers, radius ratios U[0.6,0.98], adjacent conductivity ratios log-U[1/100,100] or 1/80, 80, 1/15, 15, 1, outer radius 1 or log-U[0.5,2], centre 0 or random, 6 dipoles/configuration (2 radial, 2 tangential, 2 generic; eccentricity bins <=0.4, <=0.6, <=0.8 of the inner radius), electrodes = 42 outer-mesh vertices + 12 generic surface points, 18 MEG sensors at 1.05-1.5 R (radial / tangential / generic orientation)",
                   samples=samples, op_distribution=dist, worst_observed={"L%d %s" % k: round(v, 5) for k, v in sorted(worst.items())},
